@@ -414,7 +414,10 @@ impl Ctx {
         let scale = std::env::var("NFV_SCALE")
             .ok()
             .and_then(|s| s.parse::<f64>().ok())
-            .unwrap_or(1.0);
+            // thorough counts in the property files are upper targets; the default runs 40 %
+            // of them so that one thorough check stays at roughly half an hour on an idle
+            // 16-core machine (NFV_SCALE=1 runs them in full)
+            .unwrap_or(if self.thorough() { 0.4 } else { 1.0 });
         let b = if self.thorough() { thorough } else { quick };
         ((b as f64) * scale).max(1.0) as u32
     }
